@@ -131,6 +131,12 @@ from ..net import Conn, Sched, lit, quote
 from ..runner import Check, load_known
 from ..servers import make_env
 
+
+def ascii_upper(s: str) -> str:
+    """Upper case of an all-ASCII name; INBOX is case-insensitive in its
+    ASCII letters only (str.upper() maps U+0131 to I)."""
+    return s.upper() if s.isascii() else s
+
 DELIM = '/'
 DESELECT = b'vf-c11-never-created'
 FRESH = ('fresh',)
@@ -165,7 +171,8 @@ def glob_match(pattern: str, name: str, ci_upto: int = 0) -> bool:
             for j in range(1, n + 1):
                 if row[j - 1]:
                     c = name[j - 1]
-                    if c == ch or (j <= ci_upto and c.upper() == ch.upper()):
+                    if c == ch or (j <= ci_upto and c.isascii() and ch.isascii()
+                                and c.upper() == ch.upper()):
                         new[j] = True
         row = new
         if not any(row):
@@ -191,7 +198,7 @@ def pattern_class(ref: str, pat: str) -> str:
 # -- names --------------------------------------------------------------------
 
 def norm(name: str) -> str:
-    return 'INBOX' if name.upper() == 'INBOX' else name
+    return 'INBOX' if ascii_upper(name) == 'INBOX' else name
 
 
 def ancestors(name: str) -> list[str]:
@@ -204,7 +211,7 @@ def degenerate(name: str) -> bool:
 
 
 def first_is_inbox(name: str) -> bool:
-    return name.split(DELIM, 1)[0].upper() == 'INBOX'
+    return ascii_upper(name.split(DELIM, 1)[0]) == 'INBOX'
 
 
 def shape_suffix(name: str | None, lsub: bool = False) -> str:
@@ -287,7 +294,10 @@ NEWLINE_NAMES = ['nl\nx', 'x\n', '\nlead', 'cr\rx', 'a/b\nc', 'crlf\r\nx',
                  'a\n/b', 'tab\tx', 'x\n\n', 'ab\n']
 INBOX_NAMES = ['inbox', 'Inbox', 'Inbox/x', 'INBOX/sub', 'INBOX/sub/deep',
                'inbox/y', 'INBOXx', 'INBO', 'INBOX/a', 'iNbOx/Z', 'INBOX ',
-               'xINBOX', 'a/INBOX', 'INBOX/INBOX']
+               'xINBOX', 'a/INBOX', 'INBOX/INBOX',
+               # not INBOX: str.upper() maps the dotless i to I
+               '\u0131nbox', '\u0131NBOX', '\u0131nbox/x', 'INBO\u03a7',
+               '\uff29NBOX']
 EDGE_WS_NAMES = ['a ', ' a', 'a \t', 'sp ace ', 'a/b ', 'a /b', 'a ',
                  'w\x1f', 'a\x85']
 DEGENERATE_NAMES = ['', 'a//b', '/a', 'a/', '.', '..', 'a/../b', 'a/./b',
@@ -417,7 +427,8 @@ class Names:
                             glob_match(full, a) or (
                                 first_is_inbox(a) and glob_match(full, a, 5))):
                         may.add(a)
-            if not wild and full.upper() == 'INBOX' and 'INBOX' in self.subs:
+            if not wild and ascii_upper(full) == 'INBOX' \
+                    and 'INBOX' in self.subs:
                 must.add('INBOX')
             return must, must | may
         for n in self.real:
@@ -430,7 +441,7 @@ class Names:
                 (must if full.endswith('%') else may).add(n)
             elif first_is_inbox(n) and glob_match(full, n, 5):
                 may.add(n)
-        if not wild and full.upper() == 'INBOX':
+        if not wild and ascii_upper(full) == 'INBOX':
             must.add('INBOX')
         return must, must | may
 
